@@ -8,9 +8,9 @@
    which every reference belongs to a file reachable from the entry file (a reference of an
    unreachable file changes nothing).  Tier 1: 3 layouts of 3 files (entry at depth 0, 1, 2) with
    <= 3 references over 3 kinds x 4 path forms, and every single reference (4 kinds x all path
-   forms, valid and invalid) from depth 0, 1, 2.  Tier 2: the same layouts with 4 kinds x 8 path
-   forms, 4-file layouts with <= 4 references, 5 references over a small alphabet, all pairs of
-   valid path forms.                                                                               *)
+   forms, valid and invalid) from depth 0, 1, 2.  Tier 2: the same layouts with 4 kinds x 5 path
+   forms, two 4-file layouts with <= 4 references, <= 5 render references among 3 files, all
+   pairs of valid path forms from depth 1.                                                                               *)
 EXTENDS Loader, Json, SequencesExt
 CONSTANTS Tier
 
@@ -37,13 +37,14 @@ PAll  == PRel \cup PAbs \cup PUp \cup PBad
 \*   and Rooted target of reference d
 RECURSIVE Pow(_, _)
 Pow(b, n) == IF n = 0 THEN 1 ELSE b * Pow(b, n - 1)
-Fam(f, e, k, p, m) ==
-  LET ps == SetToSeq(p)
-      n == Len(f) * Len(k) * Len(ps)
-      own == [d \in 1..n |-> f[((d - 1) \div (Len(k) * Len(ps))) + 1]]
-  IN [files |-> f, entry |-> e, kinds |-> k, paths |-> ps, max |-> m, n |-> n, b |-> n + 1,
-      pw |-> [j \in 1..(m + 2) |-> Pow(n + 1, j - 1)], own |-> own,
-      tgt |-> [d \in 1..n |-> Rooted(Dir(own[d]), ps[((d - 1) % Len(ps)) + 1])]]
+\* (operator arguments, not LET: TLC re-evaluates a LET-bound value at every use)
+Fam3(f, e, k, ps, m, n, own) ==
+  [files |-> f, entry |-> e, kinds |-> k, paths |-> ps, max |-> m, n |-> n, b |-> n + 1,
+   pw |-> [j \in 1..(m + 2) |-> Pow(n + 1, j - 1)], own |-> own,
+   tgt |-> [d \in 1..n |-> Rooted(Dir(own[d]), ps[((d - 1) % Len(ps)) + 1])]]
+Fam2(f, e, k, ps, m, n) == Fam3(f, e, k, ps, m, n, [d \in 1..n |-> f[((d - 1) \div (Len(k) * Len(ps))) + 1]])
+Fam1(f, e, k, ps, m) == Fam2(f, e, k, ps, m, Len(f) * Len(k) * Len(ps))
+Fam(f, e, k, p, m) == Fam1(f, e, k, SetToSeq(p), m)
 K3 == <<"extends", "import", "render">>
 K4 == <<"extends", "import", "render", "renderd">>
 KI == <<"import", "render", "renderd">>
@@ -57,12 +58,12 @@ Fams ==
        Fam(All5, A, K4, PAll, 1), Fam(All5, DA, K4, PAll, 1), Fam(All5, DEA, K4, PAll, 1),
        Fam(<<A>>, B, K3, {}, 0), Fam(<<DA>>, A, K3, {}, 0) >>
   ELSE
-    << Fam(<<A, B, DA>>, A, K4, PRootMix \cup {<<"", "d", "a.html">>, <<"..", "d", "a.html">>}, 3),
-       Fam(<<A, DA, DEA>>, DA, K4, PMidMix \cup {<<"", "a.html">>, <<"..", "e", "a.html">>}, 3),
-       Fam(<<B, DB, DEA>>, DEA, K4, PDeepMix \cup {<<"", "b.html">>, <<"..", "a.html">>}, 3),
-       Fam(<<A, B, DA, DEA>>, A, K3, {<<"b.html">>, <<"", "d", "a.html">>, <<"e", "a.html">>, <<"..", "a.html">>}, 4),
-       Fam(<<A, DA, DB, DEA>>, DB, KI, {<<"a.html">>, <<"", "d", "b.html">>, <<"..", "..", "a.html">>, <<"e", "a.html">>}, 4),
-       Fam(<<A, B, DA, DB>>, A, <<"render">>, {<<"", "a.html">>, <<"", "b.html">>, <<"", "d", "a.html">>, <<"", "d", "b.html">>}, 5),
+    << Fam(<<A, B, DA>>, A, K4, PRootMix \ {<<"..", "..", "b.html">>}, 3),
+       Fam(<<A, DA, DEA>>, DA, K4, PMidMix \ {<<"a.html">>}, 3),
+       Fam(<<B, DB, DEA>>, DEA, K4, PDeepMix \ {<<"a.html">>}, 3),
+       Fam(<<A, B, DA, DEA>>, A, <<"import", "render">>, {<<"b.html">>, <<"", "d", "a.html">>, <<"e", "a.html">>, <<"..", "a.html">>}, 4),
+       Fam(<<A, DA, DB, DEA>>, DB, <<"extends", "render">>, {<<"a.html">>, <<"..", "..", "a.html">>, <<"e", "a.html">>}, 4),
+       Fam(<<A, B, DA>>, A, <<"render">>, {<<"", "a.html">>, <<"", "b.html">>, <<"", "d", "a.html">>}, 5),
        Fam(All5, A, K4, PAll, 1), Fam(All5, DA, K4, PAll, 1), Fam(All5, DEA, K4, PAll, 1),
        Fam(All5, DA, <<"import", "render">>, PRel \cup PAbs \cup PUp, 2),
        Fam(<<A>>, B, K3, {}, 0), Fam(<<DA>>, A, K3, {}, 0) >>
@@ -87,22 +88,24 @@ Level(fam, n) ==
 \* every reference belongs to a file reachable from the entry file (through any reference)
 RECURSIVE LiveSet(_, _, _, _)
 LiveSet(fam, ds, S, n) == IF n = 0 THEN S ELSE LiveSet(fam, ds, S \cup {fam.tgt[ds[j]] : j \in {i \in 1..Len(ds) : fam.own[ds[i]] \in S}}, n - 1)
-LiveCode(fam, c) == LET ds == [j \in 1..NDigits(fam, c, 0) |-> Digit(fam, c, j)]
-                        S == LiveSet(fam, ds, {fam.entry}, Len(ds))
-                    IN \A j \in 1..Len(ds) : fam.own[ds[j]] \in S
+AllOwnersIn(fam, ds, S) == \A j \in 1..Len(ds) : fam.own[ds[j]] \in S
+LiveDigits(fam, ds) == AllOwnersIn(fam, ds, LiveSet(fam, ds, {fam.entry}, Len(ds)))
+LiveCode(fam, c) == LiveDigits(fam, [j \in 1..NDigits(fam, c, 0) |-> Digit(fam, c, j)])
 \* (no UNION over big sets: TLC's UNION is quadratic; \cup sorts)
 RECURSIVE UpTo(_, _)
 UpTo(fam, n) == IF n = 0 THEN Level(fam, 0) ELSE UpTo(fam, n - 1) \cup Level(fam, n)
 Codes(fam) == {c \in UpTo(fam, fam.max) : LiveCode(fam, c)}
-\* (zero-argument definition: TLC evaluates it once)
-CodeSets == [fi \in 1..Len(Fams) |-> Codes(Fams[fi])]
-GraphOf(fi, c) == [files |-> {Fams[fi].files[i] : i \in 1..Len(Fams[fi].files)}, entry |-> Fams[fi].entry, refs |-> RefsOfCode(Fams[fi], c)]
+FileSet(fam) == {fam.files[i] : i \in 1..Len(fam.files)}
+GraphOf(fam, c) == [files |-> FileSet(fam), entry |-> fam.entry, refs |-> RefsOfCode(fam, c)]
 
 (* The model as a TLC state machine: st is the loader's state, pc the label of the branch taken
    next (computed once per state); one action per branch.                                       *)
 VARIABLES st, pc
 vars == <<st, pc>>
-Init == \E fi \in 1..Len(Fams) : \E c \in CodeSets[fi] : st = InitSt(GraphOf(fi, c)) /\ pc = Br(st)
+\* (Fams is built with recursive operators, so TLC re-evaluates it at every use: each family is
+\* handed on as an operator argument)
+InitOf(fam) == \E c \in Codes(fam) : st = InitSt(GraphOf(fam, c)) /\ pc = Br(st)
+Init == \E fi \in 1..Len(Fams) : InitOf(Fams[fi])
 Act(b) == pc = b /\ st' = Tick(Eff(b, st)) /\ pc' = Br(st')
 StartMissing == Act("StartMissing")
 StartSyntax == Act("StartSyntax")
@@ -140,22 +143,24 @@ OpenedAtMostOnce == \A i, j \in 1..Len(st.opens) : (i # j /\ st.opens[i].ok) => 
 OpensInMayOpen == \A i \in 1..Len(st.opens) : st.opens[i].n \in MayOpen(st.g)
 \* outcome and opens exactly as the reference expansion says whenever none of the causes the
 \* property is silent about intervenes
-ImplMeetsRef == (Final(st) /\ st.out # "other") => (LET r == Ref(st.g) IN st.out = r.out /\ st.opens = r.opens)
+SameAs(r) == st.out = r.out /\ st.opens = r.opens
+ImplMeetsRef == (Final(st) /\ st.out # "other") => SameAs(Ref(st.g))
 \* reachable cycle <=> cycle error (when nothing else fails first); ok only if nothing is wrong;
 \* "other" only where the reference says the property is silent (so that the class demand
 \* escape-not-found-class is never made where the implementation reports something else)
-OutcomeSound == Final(st) => LET F == Facts(st.g) IN
-                  /\ st.out = "cycle" => F.cyc
-                  /\ st.out = "ok" => (~F.cyc /\ F.esc = {} /\ \A f \in F.reach : CleanFile(st.g, f))
-                  /\ st.out = "other" => F.other
-                  /\ (F.cyc /\ ~F.other /\ F.esc = {}) => st.out \in {"cycle", "notexist"}
+SoundFor(F) == /\ st.out = "cycle" => F.cyc
+               /\ st.out = "ok" => (~F.cyc /\ F.esc = {} /\ \A f \in F.reach : CleanFile(st.g, f))
+               /\ st.out = "other" => F.other
+               /\ (F.cyc /\ ~F.other /\ F.esc = {}) => st.out \in {"cycle", "notexist"}
+OutcomeSound == Final(st) => SoundFor(Facts(st.g))
 \* the functional form of the model (used by the Trace specification) agrees with the actions
 RunFnSame == Final(st) => ImplRun(st.g) = st
 
 (* ---- case export ---- *)
-\* id = family number * 10^7 + position (the sequence is passed as an argument so that it is built once)
-CaseSeqOf(fi, S) == [j \in 1..Len(S) |-> LET g == GraphOf(fi, S[j]) IN
-                       [id |-> fi * 10000000 + j, files |-> Fams[fi].files, entry |-> g.entry, refs |-> g.refs]]
-Cases == FlattenSeq([fi \in 1..Len(Fams) |-> CaseSeqOf(fi, SetToSeq(CodeSets[fi]))])
+\* id = family number * 10^7 + position
+CaseOf(id, fam, g) == [id |-> id, files |-> fam.files, entry |-> g.entry, refs |-> g.refs]
+CaseSeqOf(fi, fam, S) == [j \in 1..Len(S) |-> CaseOf(fi * 10000000 + j, fam, GraphOf(fam, S[j]))]
+CaseSeqFam(fi, fam) == CaseSeqOf(fi, fam, SetToSeq(Codes(fam)))
+Cases == FlattenSeq([fi \in 1..Len(Fams) |-> CaseSeqFam(fi, Fams[fi])])
 ASSUME ndJsonSerialize("cases.ndjson", Cases)
 =============================================================================
